@@ -249,6 +249,15 @@ func (ic *IC) Explore(body func(ex *exec.Exec)) *exec.Stats {
 func (env *Env) RunHarness(hh *Harness) *HResult {
 	t0 := time.Now()
 	insts := hh.Instances(env)
+	if f := os.Getenv("MOQSYM_INST"); f != "" {
+		var keep []Instance
+		for _, in := range insts {
+			if strings.Contains(in.Name, f) {
+				keep = append(keep, in)
+			}
+		}
+		insts = keep
+	}
 	res := &HResult{H: hh, Instances: len(insts)}
 	var mu sync.Mutex
 	var wg sync.WaitGroup
